@@ -548,9 +548,17 @@ func ruleC16Only(r *Run) {
 	out := len(callsToFn(res, addNamed)) + len(callsToFn(res, w.Fn("rux", "Router.Add"))) + len(callsToFn(res, w.Fn("rux", "Router.AddRoute")))
 	r.Check(rule, "(*Router).Resource:no registration outside the loop", res.Pos(), out == 0, "Resource registers nothing outside the action loop")
 	// C16-USES
-	for i, c := range callsToFn(cb, use) {
+	var useCalls []ssa.CallInstruction
+	for _, f := range withAnon(res) {
+		useCalls = append(useCalls, callsToFn(f, use)...)
+	}
+	for i, c := range useCalls {
 		in := c.(ssa.Instruction)
 		a := c.Common().Args
+		if in.Parent() != cb {
+			r.Check("C16-USES", fmt.Sprintf("(*Router).Resource$cb:Use#%d", i+1), w.InstrPos(in), false, "per-action middleware is attached outside the iteration that created the action's route (to whatever route is found later)")
+			continue
+		}
 		okRoute := false
 		var leaves []ssa.Value
 		if ph, ok := a[0].(*ssa.Phi); ok {
@@ -994,6 +1002,54 @@ func ruleC17Root(r *Run) {
 						// C17-EXT
 						okExt := rest == "/{file:.+\\.(?:\x00)}" && len(holes) == 1 && tpl[0].hole == ssa.Value(f.Params[1]) && len(f.Params) > 3 && holes[0] == ssa.Value(f.Params[3])
 						r.Check("C17-EXT", FuncName(f)+":extension filter in the pattern", w.InstrPos(c), okExt, map[bool]string{true: "the allowed extensions are part of the route regex ({file:.+\\.(?:exts)}), so only such paths reach the handler", false: "the extension list is not compiled into the route pattern"}[okExt])
+						// the filter is applied to the text the router MATCHED; the file that is served must be that
+						// same text (the matched variable), not the path of the original request — with InterceptAll
+						// or a trimmed trailing slash the two differ and the filter would be bypassed
+						okServed := false
+						var handler *ssa.Function
+						if len(c.Common().Args) > 2 {
+							switch h := c.Common().Args[2].(type) {
+							case *ssa.MakeClosure:
+								handler, _ = h.Fn.(*ssa.Function)
+							case *ssa.Function:
+								handler = h
+							case *ssa.ChangeType:
+								if mc, ok := h.X.(*ssa.MakeClosure); ok {
+									handler, _ = mc.Fn.(*ssa.Function)
+								}
+							}
+						}
+						if handler != nil {
+							param := w.Fn("rux", "Context.Param")
+							eachInstr(handler, func(in ssa.Instruction) {
+								st, ok := in.(*ssa.Store)
+								if !ok {
+									return
+								}
+								fa, isFA := st.Addr.(*ssa.FieldAddr)
+								if !isFA || fieldName(fa.X.Type(), fa.Field) != "Path" || !strings.HasSuffix(types.TypeString(fa.X.Type(), nil), "net/url.URL") {
+									return
+								}
+								pc, isCall := st.Val.(*ssa.Call)
+								if !isCall || staticCallee(pc) != param {
+									return
+								}
+								if k, okk := constString(pc.Call.Args[1]); !okk || k != "file" {
+									return
+								}
+								// dominates every ServeHTTP of the closure
+								all := true
+								eachInstr(handler, func(x ssa.Instruction) {
+									if cc, ok := x.(*ssa.Call); ok && cc.Call.IsInvoke() && cc.Call.Method.Name() == "ServeHTTP" && !dominates(st, x) {
+										all = false
+									}
+								})
+								if all {
+									okServed = true
+								}
+							})
+						}
+						r.Check("C17-EXT", FuncName(f)+":serves the matched file", w.InstrPos(c), okServed, map[bool]string{true: "the handler hands the matched {file} variable to the file server (Req.URL.Path = Param(\"file\")), so the extension filter applies to what is served", false: "the extension filter is applied to the matched path but the file server is given the original request: when they differ (InterceptAll, a trimmed trailing slash) files with other extensions are served"}[okServed])
 					}
 				}
 			}
@@ -1035,7 +1091,7 @@ func init() {
 			NotDecided:  []string{"the substitution itself in BuildRequestURL.Build: placeholder grammar, escaping, query parameters", "that Match on the built path returns the same route and values (value-level string round trip through net/url)"},
 			Assumptions: []string{"Go map assignment overwrites (last writer wins)"},
 		},
-		Rules: []ruleFn{{"C15-INDEX", ruleC15Index}, {"C15-MEMO", ruleC15Memo}, {"C01-SPACE", ruleC01Space}},
+		Rules: []ruleFn{{"C15-INDEX", ruleC15Index}, {"C15-MEMO", ruleC15Memo}, {"C01-SPACE", ruleC01Space}, {"C11-ENC", ruleC11Enc}},
 	})
 	register(&property{
 		Meta: propertyMeta{
@@ -1187,7 +1243,7 @@ func ruleC15Memo(r *Run) {
 			}
 		}
 		if !fixture {
-			r.Exists(rule, label+":field stores", token.NoPos, len(stores) >= 5, fmt.Sprintf("%d store(s) into fields of an existing %s examined, %d of them derived from another field", len(stores), label, len(derived)))
+			r.Exists(rule, label+":field stores", token.NoPos, len(stores) >= 3, fmt.Sprintf("%d store(s) into fields of an existing %s examined, %d of them derived from another field", len(stores), label, len(derived)))
 		}
 		for i, d := range derived {
 			construct := fmt.Sprintf("%s:%s.%s derived from .%s #%d", FuncName(d.f), label, d.F.Name(), d.G.Name(), i+1)
@@ -1487,7 +1543,7 @@ func ruleC01Space(r *Run) {
 	r.Exists(rule, "regex-space producers", pf.Pos(), len(producers) >= 1, fmt.Sprintf("%d escaping/rewriting step(s) of the pattern-to-regex translation found", len(producers)))
 	regexSpace := func(v ssa.Value) (bool, string) {
 		why := ""
-		hit := flowsFrom(v, func(x ssa.Value) bool {
+		hit := flowsFromDeep(v, func(x ssa.Value) bool {
 			c, ok := x.(*ssa.Call)
 			if !ok {
 				return false
